@@ -341,6 +341,54 @@ def server_set(slaves: Dict[int, int], unit: int, val: int, probe: int) -> bool:
         return True
 
 
+def server_seq(ops: bytes) -> bool:
+    """histories through the public API only (no state is planted): three operations, each a symbolic choice among
+    lookup / register / delete / membership with a symbolic unit id, against a dictionary reference model; then every
+    id is probed. (The single-step obligations start from a planted `_slaves` map and cannot see state kept elsewhere.)"""
+    from pymodbus.datastore import ModbusServerContext
+    from pymodbus.exceptions import NoSuchSlaveException
+    assume(len(ops) == 9)
+    ctx = ModbusServerContext(slaves={1: 101}, single=False)
+    model = {1: 101}
+    for i in range(3):
+        kind, unit, val = ops[3 * i], ops[3 * i + 1], ops[3 * i + 2]
+        assume(kind <= 3)
+        assume(1 <= unit <= 2)
+        if kind == 0 or kind == 3:
+            if (unit in ctx) != (unit in model):
+                explain("step %d: membership of %r", i, unit)
+                return False
+            try:
+                got = ctx[unit]
+                if unit not in model or got != model[unit]:
+                    explain("step %d: ctx[%r] returned %r, registered: %r", i, unit, got, sorted(model))
+                    return False
+            except NoSuchSlaveException:
+                if unit in model:
+                    explain("step %d: registered unit %r raised NoSuchSlave", i, unit)
+                    return False
+        elif kind == 1:
+            ctx[unit] = val
+            model[unit] = val
+        else:
+            if unit in model:
+                del ctx[unit]
+                del model[unit]
+    for unit in (1, 2, 3):
+        if (unit in ctx) != (unit in model):
+            explain("final membership of %r", unit)
+            return False
+        try:
+            got = ctx[unit]
+            if unit not in model or got != model[unit]:
+                explain("final ctx[%r] returned %r, registered: %r", unit, got, sorted(model))
+                return False
+        except NoSuchSlaveException:
+            if unit in model:
+                return False
+    return sorted(ctx.slaves()) == sorted(model)
+
+
 def server_del(slaves: Dict[int, int], unit: int, probe: int) -> bool:
     from pymodbus.datastore import ModbusServerContext
     from pymodbus.exceptions import NoSuchSlaveException
@@ -456,5 +504,6 @@ def obligations(tier):
         Obl("server.multi.get", server_multi, bounds="<= 3 hosted ids in 0..247 (symbolic dict), probed id 0..255", timeout=T),
         Obl("server.multi.set", server_set, bounds="<= 2 hosted ids, registered id -3..300, probe 0..255", timeout=T),
         Obl("server.multi.del", server_del, bounds="1..2 hosted ids, delete a hosted id, probe 0..255", timeout=T),
+        Obl("server.multi.history", server_seq, bounds="multi-unit context built and changed through its public API only: every sequence of 3 operations from {lookup, register, delete, membership} on ids {1, 2} with symbolic values, then all ids probed, against a dictionary model", timeout=T),
     ]
     return obl
